@@ -19,12 +19,13 @@ Record file := { structs : list struct_; messages : list message; enums : list e
 
 (* ---------- parser state over the precomputed Next() results ---------- *)
 Record pst := { rs : list nres; cur : token; keep : bool; perrs : list ekind }.
-Inductive pres (A : Type) := POk (a : A) (s : pst) | PErr | PPanic | PFuel.
-Arguments POk {A}. Arguments PErr {A}. Arguments PPanic {A}. Arguments PFuel {A}.
+(* PFuel: a loop of the parser ran out of its fuel;  PEnd: the parser asked for more Next() results than were precomputed *)
+Inductive pres (A : Type) := POk (a : A) (s : pst) | PErr | PPanic | PFuel | PEnd.
+Arguments POk {A}. Arguments PErr {A}. Arguments PPanic {A}. Arguments PFuel {A}. Arguments PEnd {A}.
 Definition M (A : Type) := pst -> pres A.
 Definition ret {A} (a : A) : M A := fun s => POk a s.
 Definition bind {A B} (m : M A) (f : A -> M B) : M B :=
-  fun s => match m s with POk a s' => f a s' | PErr => PErr | PPanic => PPanic | PFuel => PFuel end.
+  fun s => match m s with POk a s' => f a s' | PErr => PErr | PPanic => PPanic | PFuel => PFuel | PEnd => PEnd end.
 Definition fail {A} : M A := fun _ => PErr.
 Definition nofuel {A} : M A := fun _ => PFuel.
 Notation "x <- m ;; k" := (bind m (fun x => k)) (at level 61, m at next level, right associativity).
@@ -33,7 +34,7 @@ Notation "m ;;; k" := (bind m (fun _ => k)) (at level 61, right associativity).
 Definition p_next : M bool := fun s =>
   if keep s then POk true {| rs := rs s; cur := cur s; keep := false; perrs := perrs s |}
   else match rs s with
-       | [] => PFuel          (* the precomputed results are used up: the run (Tok.run) was too short for this parse - never observed; counted as out of fuel *)
+       | [] => PEnd           (* the precomputed results are used up: the run (Tok.run) was too short for this parse - never observed *)
        | NT t e :: r => POk true {| rs := r; cur := t; keep := false; perrs := e |}
        | NF e :: r => POk false {| rs := r; cur := cur s; keep := false; perrs := e |}
        | NP :: _ => PPanic
@@ -589,7 +590,7 @@ Fixpoint top_loop (g : nat) (f : file) (cm : list bytes) (opc : N) (ro bf : bool
   end.
 
 Definition read_file (input : bytes) (fails : bool) : pres file :=
-  let n := length input + 3 in
+  let n := length input + margin in
   let results := next_results n {| buf := {| rest := input; lastByte := None; lastRune := None; failing := fails |}; errs := [] |} in
   top_loop (2 * n + 8)
     {| structs := []; messages := []; enums := []; unions := []; consts := []; imports := []; gopackage := [] |}
